@@ -13,6 +13,9 @@ src/String.c, src/Num.c and src/Show.c on every run (called by gen_params.py).
   rt_scan_float_l_rule : bool      scan_from_with stores through double* iff the directive contains 'l'
   rt_scan_int_signext : bool       scan_from_with sign-extends what a d/i directive without a length
                                    modifier stored into its `long tmp` (false = zero-extension, F6)
+  rt_scan_lit_measures : bool      literal pieces of the scan format advance pos by what scanf consumed
+                                   ("%n" appended); false = by the length of the piece (D22)
+  rt_scan_pct_measures : bool      the "%%" piece advances pos by what scanf consumed; false = by 2 (D23)
 """
 import re
 
@@ -146,7 +149,29 @@ def generate(repo, emit, src, func_body):
     b = func_body(sh, r'\bint\s+scan_from_with\s*\([^)]*\)\s*\{')
     if not b:
         emit('rt_scan_float_l_rule', None); emit('rt_scan_int_signext', None)
+        emit('rt_scan_lit_measures', None); emit('rt_scan_pct_measures', None)
         return
+    nb = re.sub(r'\s+', ' ', b)
+    lit_old = ('if (start isnt fmt) { memcpy(fmt_buf, start, fmt - start); fmt_buf[fmt - start] = \'\\0\'; '
+               'format_from(input, pos, fmt_buf); pos += (int)(fmt - start); continue; }')
+    lit_new = ('if (start isnt fmt) { int off = (int)(fmt - start); memcpy(fmt_buf, start, fmt - start); '
+               'strcpy(fmt_buf + (fmt - start), "%n"); format_from(input, pos, fmt_buf, &off); pos += off; continue; }')
+    if lit_new in nb:
+        emit('rt_scan_lit_measures', boolean('rt_scan_lit_measures', True, 'source: literal piece scanned with a trailing %n'))
+    elif lit_old in nb:
+        emit('rt_scan_lit_measures', boolean('rt_scan_lit_measures', False, 'source: pos += length of the literal piece'))
+    else:
+        emit('rt_scan_lit_measures', None)
+    pct_old = ('if (*fmt is \'%\' and *(fmt+1) is \'%\') { int err = format_from(input, pos, "%%"); '
+               'if (err < 0) { throw(FormatError, "Unable to input \'%%%%\'!"); } pos += 2; fmt += 2; continue; }')
+    pct_new = ('if (*fmt is \'%\' and *(fmt+1) is \'%\') { int off = 0; int err = format_from(input, pos, "%%%n", &off); '
+               'if (err < 0) { throw(FormatError, "Unable to input \'%%%%\'!"); } pos += off; fmt += 2; continue; }')
+    if pct_new in nb:
+        emit('rt_scan_pct_measures', boolean('rt_scan_pct_measures', True, 'source: "%%%n"'))
+    elif pct_old in nb:
+        emit('rt_scan_pct_measures', boolean('rt_scan_pct_measures', False, 'source: pos += 2'))
+    else:
+        emit('rt_scan_pct_measures', None)
     fl = re.search(r'strchr\s*\(\s*"fFeEgGaA"\s*,\s*\*fmt\s*\)\s*\)\s*\{\s*if\s*\(\s*strchr\s*\(\s*fmt_buf\s*,\s*\'l\'\s*\)\s*\)\s*\{\s*double\s+tmp\s*=\s*0\s*;'
                    r'.*?assign\s*\(\s*a\s*,\s*\$F\s*\(\s*tmp\s*\)\s*\)\s*;\s*\}\s*else\s*\{\s*float\s+tmp\s*=\s*0\s*;.*?assign\s*\(\s*a\s*,\s*\$F\s*\(\s*tmp\s*\)\s*\)\s*;\s*\}', b, re.S)
     emit('rt_scan_float_l_rule', boolean('rt_scan_float_l_rule', True) if fl else None)
